@@ -4,6 +4,7 @@ from plan import H
 UF = [("ruint::algorithms::DoubleWord::mul", "uf::mul_stub"),
       ("ruint::algorithms::DoubleWord::muladd", "uf::muladd_stub"),
       ("ruint::algorithms::DoubleWord::muladd2", "uf::muladd2_stub")]
+EXTRA_SHAPES = {(4, 3, 3)}   # both operands 3 limbs with two full rows (probed separately)
 UFDOM = ("FULL limb contents; 64x64->128 multiply abstracted as an uninterpreted function with axioms 0*x=0, 1*x=x, "
          "commutativity, functional consistency, x*y <= (2^64-1)^2, x*y >= max(x,y) for x,y >= 1 (implementation and reference share it)")
 
@@ -34,7 +35,7 @@ def harnesses():
     for nl in range(0, 5):
         for na in range(0, 4):
             for nb in range(0, 4):
-                if na + nb > 5:
+                if na + nb > 5 and (nl, na, nb) not in EXTRA_SHAPES:
                     continue
                 quick = nl <= 3 and na <= 2 and nb <= 2 and na + nb <= 3
                 w = max(nl, na + nb) + 1
